@@ -6,7 +6,8 @@ from .. import pipeline, mqnet, protocol, pairfeed, netstall
 ID = 'C06'
 MODULES = ['OFModel.Zmq.Receiver', 'OFModel.Zmq.Sender', 'OFModel.Zmq.Pair', 'OFModel.Zmq.Net', 'OFModel.Gen.Facts']
 PROP_FILES = ['C06', 'PairRecv', 'PairSend', 'C06Live', 'PairFair', 'C06Fair', 'C06NetEdge', 'C06NetMeasure', 'C06Net',
-              'C06StarEdge', 'C06StarInv', 'C06StarMeasure', 'C06StarSem', 'C06Star']
+              'C06StarEdge', 'C06StarInv', 'C06StarMeasure', 'C06StarSem', 'C06Star',
+              'C06ChainRestartInv', 'C06ChainRestart', 'C06ChainRestartUp']
 LEVEL = 'proof'
 RULE = ('(1) closed pair (OFProps/C06Live.lean): a REAL ZMQSender and a REAL ZMQReceiver wired through fakezmq run random schedules of send | recv | restart consumer | restart publisher '
         '(graceful or crash, anywhere), compared event by event with the Lean model OF.Pair (messages published, requests pushed, sets returned, client table, ids, buffers, channel lengths), '
@@ -17,7 +18,8 @@ RULE = ('(1) closed pair (OFProps/C06Live.lean): a REAL ZMQSender and a REAL ZMQ
         'Oracle (exploration): within 15 virtual seconds after the fault ends every live sink has been handed a new frame, and sequence numbers stay strictly increasing at every node. '
         '(3) chain of 2-6 REAL MQ objects on fakezmq (OFProps/C06Net.lean, harness/ofverif/netstall.py): random restart-free reachable prefix, then either the explicit schedule of C06_net_chain_progress (send of the sink, then pull: 5 (L-1) + 2 events, 1-3 repetitions, any clock readings) or 5 (L-1) + 3 random FAIR rounds (every node recv and send at least once per round, random order / repetitions / clock steps up to beyond the connection time-out: C06_net_chain_fair_heals); oracle net-chain-no-progress: the real sink recv returned fewer new frame sets than proved; the same schedule through OF.Net (net.run), compared event by event. '
         '(4) tee of 1-5 REAL MQ objects subscribed to one source (OFProps/C06Star.lean, harness/ofverif/netstall.py gen_star_trial / run_star): random restart-free reachable prefix, then the explicit schedule of C06_net_star_progress (6 b + 3 events, 1-3 repetitions, any clock readings) | 8 or 16 random FAIR rounds of all nodes at any clock steps (C06_net_star_fair_heals) | a random set of consumers falls SILENT and the explicit healing schedule of C06_net_star_heals_explicit runs (recv 0, send 0 now, then the progress schedule of the live consumers one connection time-out after the later of now and every t_last in the REAL client table) | the same with a random first phase of live events around recv 0 ... send 0 and then 8 / 16 random fair rounds of the LIVE nodes beyond that clock reading (C06_net_star_heals_after_silence_flush); oracle net-star-no-progress: the real recv of a LIVE consumer returned fewer new frame sets than proved; the same events through OF.Net (net.run), compared event by event. '
-        'Plus the adversarial feeds of C01/C02 for the component tie.  non-trivial = a run in which the victim was hit while frames were flowing / a pair schedule with at least one restart')
+        '(5) chain source 0 -> relay 1 -> sink 2 of REAL MQ objects WITH RESTARTS in the history (OFProps/C06ChainRestart.lean, harness/ofverif/netstall.py gen_chainrestart_trial / run_chainrestart): random reachable prefix of recv i | send i @t | restart i graceful or crash (any node, 0-4 restarts anywhere, events between them, clock gaps up to beyond the connection time-out), then the healing schedule heal3 n0 n1 t1 t2 t3 (2 n0 + 24 n1 + 115 events) computed from the REAL state after the prefix: n0 / n1 = requests queued at the real PULL socket of node 0 / node 1, t1 = now, t2 / t3 = one connection time-out beyond every t_last in the real client table of node 0 / node 1; oracle net-chain-not-recovered: the real sink recv returned no frame set above its prev_id and above everything its current incarnation returned; oracle net-chain-order: ids handed to the relay / the sink strictly increase per incarnation over the whole run; the whole run through OF.Net (net.run), compared event by event (incl. n0 / n1 = pub.queues length of the model); information only: the same schedule without the waiting phases (t2 = t3 = t1) after a crash of the relay or the sink - how often the sink stays unserved.  '
+        'Plus the adversarial feeds of C01/C02 for the component tie.  non-trivial = a run in which the victim was hit while frames were flowing / a pair schedule with at least one restart / a chain prefix with at least one restart')
 ASSUMPTIONS = ['partial by nature: proved are the schedule-independent unstick lemmas (re-request, handshake, fast-forward, newer-id adoption, eviction, required-output wait) and, for the closed pair of one publisher '
                'and one synchronised consumer, "no reachable deadlock": from every reachable state (any history, any restarts) an explicit continuation delivers a new frame (C06_pair_recovers), '
                'within a constant 12 events = 5 polls + one connection time-out (C06_pair_recovers_const / C06_pair_recovery_bound_const, invariant Tight; 9 events when the request channel is empty; assuming nothing about channel contents: #queued requests + 9, C06_pair_recovers), ids strictly increasing per incarnation (C06_pair_order)',
@@ -274,6 +276,96 @@ def net_star_campaign(ctx, n):
     res.extra['net_star_fair_rounds_until_every_live_consumer_served(exploration; proved bound 8)'] = dict(sorted(rounds.items()))
 
 
+# restarts placed in the first trials of the chain-restart campaign: every victim x kind alone, then pairs of different nodes (events in between are random)
+CHAINRESTART_COVER = [[(0, True)], [(0, False)], [(1, True)], [(1, False)], [(2, True)], [(2, False)],
+                      [(2, False), (1, False)], [(1, False), (2, False)], [(0, False), (1, True)], [(1, True), (2, True)], [(0, True), (2, False)], [(2, True), (0, False)],
+                      [(0, False), (1, False), (2, False)], [(2, False), (2, False)], [(1, False), (1, True)], [(1, False), (0, False), (2, True), (1, True)]]
+
+
+def net_chainrestart_campaign(ctx, n):
+    """chain 0 -> 1 -> 2 of REAL MQ objects on fakezmq (OFProps/C06ChainRestart.lean): random reachable prefix WITH restarts (any node, graceful / crash), then the
+    healing schedule heal3 computed from the real state (queued requests, t_last of the client tables); oracles net-chain-not-recovered / net-chain-order;
+    vs OF.Net event by event; negative probe (information only): the same schedule without the waiting phases after a crash of the relay / the sink"""
+    import random, sys
+    logging.disable(logging.CRITICAL)
+    res = ctx.result
+    rng = random.Random(ctx.rng.randrange(10**9))        # own stream
+    trials = [c['trial'] for c in ctx.corpus if c.get('feed') == 'net-chainrestart']
+    if ctx.replay: trials = [ctx.replay['case']['trial']] if ctx.replay.get('case', {}).get('feed') == 'net-chainrestart' else []; n = 0
+    for k in range(n): trials.append(netstall.gen_chainrestart_trial(rng, CHAINRESTART_COVER[k] if k < len(CHAINRESTART_COVER) else None))
+    runs = [netstall.run_chainrestart(t) for t in trials]
+    model = ctx.driver.batch([netstall.model_request(t) for t in trials]) if ctx.driver else None
+    st = {'trials': len(trials), 'with_restarts': 0, 'two_different_victims': 0, 'events_between_restarts': 0, 'restarts': {}, 'sink_served': 0, 'max_schedule_length': 0,
+          'n0': {}, 'n1': {}, 'events_until_served': {}, 'queue_lengths_equal_model': 0, 'queue_lengths_differ_from_model': 0}
+    neg = {'trials': 0, 'sink_unserved': 0, 'unserved_by_crashed': {}, 'examples': {}}
+    cands = {}
+    for idx, (t, (obs, info)) in enumerate(zip(trials, runs)):
+        rs = [e for e in t['prefix'] if e['k'] == 'restart']
+        at = [k for k, e in enumerate(t['prefix']) if e['k'] == 'restart']
+        served = info['done_at'] is not None
+        res.note({'feed': 'net-chainrestart', 'behs': t['topo']['behs'], 'prefix_events': len(t['prefix']), 'restarts': [[e['i'], 'graceful' if e['g'] else 'crash'] for e in rs],
+                  'n0': info.get('n0'), 'n1': info.get('n1'), 't1': info.get('t1'), 't2': info.get('t2'), 't3': info.get('t3'), 'schedule_events': info['heal_len'],
+                  'sink_served_after': info['done_at']}, nontrivial=False)
+        if rs: res.nontrivial.add(f"net-chainrestart:{ctx.seed}:{idx}:{len(t['prefix'])}:{len(rs)}:{info['heal_len']}")
+        st['with_restarts'] += bool(rs); st['sink_served'] += served
+        st['two_different_victims'] += len({e['i'] for e in rs}) >= 2
+        st['events_between_restarts'] += any(b - a > 1 for a, b in zip(at, at[1:]))
+        for e in rs:
+            k = f"node{e['i']}:{'graceful' if e['g'] else 'crash'}"; st['restarts'][k] = st['restarts'].get(k, 0) + 1
+        st['max_schedule_length'] = max(st['max_schedule_length'], info['heal_len'])
+        for q in ('n0', 'n1'): st[q][str(info.get(q))] = st[q].get(str(info.get(q)), 0) + 1
+        kb = 'never' if not served else f"{(info['done_at'] // 20) * 20}-{(info['done_at'] // 20) * 20 + 19}"; st['events_until_served'][kb] = st['events_until_served'].get(kb, 0) + 1
+        for key, what in netstall.chainrestart_oracle(t, info)[:1]:
+            small = netstall.shrink_chainrestart(t, key) if len(res.violations) < 3 else t
+            res.violations.append(Violation(key, what + (f" | minimised prefix: {netstall.lean_events(small['prefix'])}; heal {small.get('heal')}" if small is not t else ''),
+                                            {'feed': 'net-chainrestart', 'trial': small}))
+        if model is not None:
+            r = model[idx]
+            if 'err' in r:
+                res.disagreements.append({'point': 'net.run', 'case': {'feed': 'net-chainrestart', 'trial': t}, 'impl': None, 'model': r}); continue
+            d = netstall.compare(t, obs, r)
+            npre = len(t['prefix'])
+            mq = [nd['reqs'] for nd in r['events'][npre - 1]['nodes'][:2]] if npre and len(r.get('events', [])) >= npre else [0, 0]      # `pub.queues[0].length` of nodes 0 and 1 after the prefix
+            same = mq == [info.get('n0'), info.get('n1')]
+            st['queue_lengths_equal_model' if same else 'queue_lengths_differ_from_model'] += 1
+            if d is not None:
+                ci, a, b = d
+                evs = t['prefix'] + t['stall']
+                res.disagreements.append({'point': f'net-chainrestart event #{ci} {evs[ci] if ci < len(evs) else None}: real MQ objects vs OF.Net.step', 'case': {'feed': 'net-chainrestart', 'trial': t}, 'impl': a, 'model': b})
+            elif not same:
+                res.disagreements.append({'point': 'net-chainrestart: requests queued at the real PULL sockets of nodes 0 / 1 after the prefix vs pub.queues of OF.Net', 'case': {'feed': 'net-chainrestart', 'trial': t},
+                                          'impl': [info.get('n0'), info.get('n1')], 'model': mq})
+            else:
+                res.traces_validated += 1
+        crashed = netstall.crashed_nodes(t['prefix'])
+        if crashed and not ctx.replay:         # negative probe, information only: no waiting phases
+            neg['trials'] += 1
+            if netstall.nowait_unserved(t) is not None:
+                neg['sink_unserved'] += 1
+                k = '+'.join(f'node{i}' for i in crashed); neg['unserved_by_crashed'][k] = neg['unserved_by_crashed'].get(k, 0) + 1
+                plain = not any(b.get('defer') or b.get('lone') or b['kind'] == 'lone' for b in t['topo']['behs'])         # the process functions of `chProc`
+                rank = (not plain, len(t['prefix']))
+                if k not in cands or rank < cands[k][0]: cands[k] = (rank, t)
+    for k, (_, t) in sorted(cands.items()):          # one minimised example per set of crashed nodes
+        small = netstall.shrink_nowait(t)
+        ni = netstall.nowait_unserved(small)
+        _, wi = netstall.run_chainrestart(small)
+        if ni is None: continue
+        neg['examples'][k] = {'restarts_in_minimised_prefix': [[i, 'graceful' if g else 'crash'] for i, g in small['restarts']], 'behs': small['topo']['behs'], 'prefix_lean': netstall.lean_events(small['prefix']), 'n0': ni['n0'], 'n1': ni['n1'], 't1': ni['t1'],
+                              'schedule_lean': f"heal3 {ni['n0']} {ni['n1']} {ni['t1']} {ni['t1']} {ni['t1']}", 'schedule_events': ni['heal_len'],
+                              'sink_prev_id_after_prefix': ni['prev0'], 'sink_returned_by_current_incarnation_before': ni['seqs'][2][-1][:len(ni['seqs'][2][-1]) - len(ni['returned'])],
+                              'sink_returned_during_schedule': ni['returned'], 'clients0': ni['clients0'], 'clients1': ni['clients1'],
+                              'queued_requests0': ni['queued_requests0'], 'queued_requests1': ni['queued_requests1'],
+                              'with_waiting_phases': {'schedule_lean': f"heal3 {wi['n0']} {wi['n1']} {wi['t1']} {wi['t2']} {wi['t3']}", 'sink_returned': wi['returned'], 'served_after_events': wi['done_at']}}
+    res.extra['net_chainrestart'] = st
+    res.extra['net_chainrestart_no_wait_probe(information; t2 = t3 = t1 after a crash of relay / sink)'] = neg
+    if neg['examples'] and not ctx.replay:
+        sys.stderr.write(f"[C06] net-chainrestart probe WITHOUT the waiting phases (t2 = t3 = t1): sink unserved in {neg['sink_unserved']} of {neg['trials']} trials with a crashed relay / sink {neg['unserved_by_crashed']}\n")
+        for k, ex in neg['examples'].items():
+            sys.stderr.write(f"[C06]   crashed {k}: behs {ex['behs']}; prefix {ex['prefix_lean']}; then {ex['schedule_lean']} -> sink returned {ex['sink_returned_during_schedule']} "
+                             f"(prev_id {ex['sink_prev_id_after_prefix']}; client tables {ex['clients0']} / {ex['clients1']}); {ex['with_waiting_phases']['schedule_lean']} -> {ex['with_waiting_phases']['sink_returned']}\n")
+
+
 def run(ctx):
     logging.disable(logging.CRITICAL)
     res, rng = ctx.result, ctx.rng
@@ -301,3 +393,4 @@ def run(ctx):
     protocol.send_campaign(ctx, 'C06', 300 if not ctx.thorough else 3000, ['sync', 'adv'])
     net_live_campaign(ctx, 1500 if ctx.thorough else (400 if ctx.escalate else 120))     # last: the random stream of the campaigns above is unchanged
     net_star_campaign(ctx, 1200 if ctx.thorough else (300 if ctx.escalate else 60))
+    net_chainrestart_campaign(ctx, 1500 if ctx.thorough else (300 if ctx.escalate else 80))
